@@ -464,6 +464,7 @@ def _large_task(task, out):
         fields = {"kind": "large", "qtype": qname, "axis": axis, "grouped": gs is not None, "bits": qt.bits}
         case = dict(task, only=c)
         try:
+            num.poison(x.numel() * 4, x.numel())
             q = quantize_weight(x, qt, axis, gs) if qt.bits < 8 else quantize_weight(x, qt, axis)
         except Exception as e:  # noqa
             out["violations"].append(violation(PID, case, dict(fields, sub="rejected_supported"), f"rejected_supported: quantize_weight({qname}, axis={axis}, group_size={gs}) on {shape}: {type(e).__name__}: {str(e)[:160]}"))
